@@ -410,7 +410,7 @@ def _sig_match(sig, feat):
 # --------------------------------------------------------------------------------------
 # reporting
 
-UNGROUPED = {"src", "index", "case", "program", "seed", "id"}
+UNGROUPED = {"src", "index", "case", "program", "seed", "id", "ops"}
 
 
 class Report:
